@@ -762,6 +762,82 @@ func checkCoins(cc coinCase) *mc.Failure {
 	return nil
 }
 
+// ---- large buffers: the deterministic part of the property ----
+//
+// For buffers beyond the exact analysis the clauses that do not depend on the
+// coins are checked on long histories: exact regime below the buffer size
+// (however often values repeat), Len <= size and Count = Len*2^k with k
+// non-decreasing above it, and Reset restoring the exact regime - repeatedly,
+// so that a counter that is reused many times is covered. With the hooks the
+// random source is a fixed PCG stream (the same execution on every run); the
+// invariants hold for every outcome of the coins, so any outcome is a fair one
+// to test them on.
+
+type largeCase struct {
+	Size   int `json:"buffer_size"`
+	Cycles int `json:"reset_cycles"`
+}
+
+func checkLarge(lc largeCase) *mc.Failure {
+	var ctr *distinct.Counter[int]
+	if mc.HooksEnabled {
+		ctr = newCounter(lc.Size, rand.NewPCG(uint64(lc.Size), 0x9e3779b97f4a7c15))
+	} else {
+		ctr = distinct.NewCounter[int](lc.Size)
+	}
+	step := 0
+	for cyc := 0; cyc < lc.Cycles; cyc++ {
+		// exact regime: size-1 distinct values, repeats interleaved
+		base := cyc * 10 * lc.Size
+		for d := 1; d < lc.Size; d++ {
+			for _, v := range []int{base + d, base + (d+1)/2, base + d} {
+				step++
+				ctr.Add(v)
+				if ctr.Len() != d || ctr.Count() != uint64(d) {
+					return mc.Failf(step, "buffer of %d, cycle %d: after %d distinct values (fewer than the buffer size) Len=%d Count=%d, want both %d", lc.Size, cyc, d, ctr.Len(), ctr.Count(), d)
+				}
+			}
+		}
+		if cyc%2 == 1 {
+			// above the buffer size: the coin-independent invariants
+			k := 0
+			for i := 0; i < 4*lc.Size+7; i++ {
+				step++
+				ctr.Add(base + lc.Size + i)
+				n, cnt := ctr.Len(), ctr.Count()
+				if n > lc.Size {
+					return mc.Failf(step, "buffer of %d: Len=%d exceeds the buffer size", lc.Size, n)
+				}
+				if n == 0 {
+					if cnt != 0 {
+						return mc.Failf(step, "buffer of %d: Len=0 but Count=%d", lc.Size, cnt)
+					}
+					continue
+				}
+				q := cnt / uint64(n)
+				if cnt%uint64(n) != 0 || q&(q-1) != 0 {
+					return mc.Failf(step, "buffer of %d: Count=%d is not Len=%d times a power of two", lc.Size, cnt, n)
+				}
+				if kk := bits.TrailingZeros64(q); kk < k {
+					return mc.Failf(step, "buffer of %d: Count/Len went from 2^%d down to 2^%d without a Reset", lc.Size, k, kk)
+				} else {
+					k = kk
+				}
+			}
+		}
+		step++
+		ctr.Reset()
+		if ctr.Len() != 0 || ctr.Count() != 0 {
+			return mc.Failf(step, "buffer of %d: after Reset Len=%d Count=%d", lc.Size, ctr.Len(), ctr.Count())
+		}
+	}
+	ctr.Add(-1)
+	if ctr.Len() != 1 || ctr.Count() != 1 {
+		return mc.Failf(step+1, "buffer of %d: one Add after %d Resets gives Len=%d Count=%d, want 1 and 1", lc.Size, lc.Cycles, ctr.Len(), ctr.Count())
+	}
+	return nil
+}
+
 // ---- statistical complement ----
 //
 // When the harness cannot own the randomness of a configuration (the code
@@ -971,6 +1047,34 @@ func main() {
 			}
 			e := newExplorer(&t.Cfg)
 			return e.checkStream(t.Stream)
+		},
+	}, mc.Harness{
+		Name: "cvm-large",
+		Explore: func(r *mc.Run) {
+			var cases []largeCase
+			for _, n := range mc.Pick(r, []int{2, 3, 4, 5, 8, 16, 17, 63, 64, 65, 127, 128, 129, 130, 131, 256, 257, 1000}, []int{2, 3, 4, 5, 8, 16, 17, 63, 64, 65, 127, 128, 129, 130, 131, 256, 257, 1000, 4096, 4097, 20000}) {
+				cases = append(cases, largeCase{n, 4})
+			}
+			for _, n := range []int{2, 3, 7, 40} {
+				cases = append(cases, largeCase{n, 2*n + 6}) // a counter reused more often than its size
+			}
+			mc.ParallelFor(len(cases), r.Workers, func(i int) {
+				lc := cases[i]
+				if f := mc.GuardT("cvm-large", lc, func() *mc.Failure { return checkLarge(lc) }); f != nil {
+					r.Violation(mc.Case{Harness: "cvm-large", Trace: mc.J(lc), Msg: f.Msg, Step: f.Step})
+				}
+			})
+			n := int64(len(cases))
+			r.AddEval(n, n, n, n)
+			r.Rule("buffers of 2...1000/20000: exact regime with interleaved repeats up to size-1 distinct values, the coin-independent invariants on 4*size further values, Reset, four cycles (and 2*size+6 cycles for small buffers); fixed random stream")
+			r.Sample(largeCase{130, 4})
+		},
+		Replay: func(c mc.Case) *mc.Failure {
+			var lc largeCase
+			if err := mc.Unmarshal(c.Trace, &lc); err != nil {
+				return mc.Failf(-1, "bad trace: %v", err)
+			}
+			return checkLarge(lc)
 		},
 	}, mc.Harness{
 		Name:    "cvm-coins",
